@@ -13,6 +13,7 @@ import (
 	"verif/harness/c11"
 	"verif/harness/c12"
 	"verif/harness/c13"
+	"verif/harness/c14"
 	"verif/harness/c15"
 	"verif/harness/c16"
 	"verif/harness/c17"
@@ -50,6 +51,8 @@ func init() {
 	reg("c13", "Route", func(a []int64) { c13.Route(int(a[0])) })
 	reg("c13", "Misaligned", func(a []int64) { c13.Misaligned(int(a[0])) })
 	reg("c13", "Dump", func(a []int64) { c13.Dump(int(a[0]), int(a[1]), int(a[2])) })
+	reg("c14", "Line", func(a []int64) { c14.Line(int(a[0]), int(a[1]), int(a[2]), int(a[3])) })
+	reg("c14", "LoggerOnOff", func(a []int64) { c14.LoggerOnOff(int(a[0]), int(a[1]), int(a[2])) })
 	reg("c15", "Listing", func(a []int64) { c15.Listing(a[0], int(a[1]), int(a[2]), int(a[3]), int(a[4])) })
 	reg("c16", "Split", func(a []int64) { c16.Split(a[0], int(a[1]), int(a[2]), int(a[3]), int(a[4])) })
 	reg("c16", "AppendTooBig", func(a []int64) { c16.AppendTooBig(int(a[0]), int(a[1]), int(a[2]), int(a[3])) })
